@@ -68,6 +68,13 @@ func (p *probePlugin) Do(ev *pipeline.Event) pipeline.ActionResult {
 		}
 		r.mu.Unlock()
 	}
+	// chain batches (chain.go): the probe changes the event like a modify /
+	// remove_fields action would, then passes it on
+	if m := curMuts.Load(); m != nil && p.idx >= 0 && p.idx < len(*m) {
+		for i := range (*m)[p.idx] {
+			applyMutOp(ev.Root, &(*m)[p.idx][i])
+		}
+	}
 	return pipeline.ActionPass
 }
 
@@ -101,6 +108,10 @@ type pipeBatch struct {
 	Order2   []int             `json:"order2"` // event order of the second pass
 	Parallel bool              `json:"parallel"`
 	LowMem   bool              `json:"low_mem"`
+	// chain batches: what the probe of each action does to the event when it is
+	// applied; Final asks for the event as it reaches the output
+	Muts  [][]mutOp `json:"muts,omitempty"`
+	Final bool      `json:"final,omitempty"`
 }
 
 type pipeBatchResult struct {
@@ -108,6 +119,8 @@ type pipeBatchResult struct {
 	Hits [2][]string `json:"hits"` // per pass, per action: one byte per event: '0' not invoked, '1' invoked once, '2' more than once
 	Err  string      `json:"err,omitempty"`
 	Ms   int64       `json:"ms"`
+	// chain batches: per pass, per event: the event at the output
+	Final [2][]string `json:"final,omitempty"`
 }
 
 type pipeIn struct {
@@ -200,8 +213,28 @@ func runPipeBatch(b *pipeBatch) (res pipeBatchResult) {
 	curRec.Store(rec)
 	defer curRec.Store(nil)
 
+	if len(b.Muts) > 0 {
+		curMuts.Store(&b.Muts)
+		defer curMuts.Store(nil)
+	}
+	var finMu sync.Mutex
+	var finals []string
+	if b.Final {
+		finals = make([]string, 2*nE)
+	}
+
 	var outCount atomic.Int64
-	out.SetOutFn(func(*pipeline.Event) { outCount.Add(1) })
+	out.SetOutFn(func(e *pipeline.Event) {
+		if finals != nil {
+			if slot := int(e.Offset) - 1; slot >= 0 && slot < len(finals) {
+				s := e.Root.EncodeToString()
+				finMu.Lock()
+				finals[slot] = s
+				finMu.Unlock()
+			}
+		}
+		outCount.Add(1)
+	})
 	p.Start()
 
 	feed := func(pass int, order []int) {
@@ -252,6 +285,11 @@ func runPipeBatch(b *pipeBatch) (res pipeBatchResult) {
 				}
 			}
 			res.Hits[pass][a] = string(row)
+		}
+		if finals != nil {
+			finMu.Lock()
+			res.Final[pass] = append([]string(nil), finals[pass*nE:(pass+1)*nE]...)
+			finMu.Unlock()
 		}
 	}
 	return res
